@@ -41,6 +41,9 @@ var vhC03Tpl = []string{
 	"{% for k, v in nm %}{{ k }}={{ v }};{% endfor %}",
 	"{{ nm|keys|join(',') }}|{{ nm|first }}",
 	"{% for k, v in {'07': 1, '7': 2, '+7': 3} %}{{ k }}{{ v }}{% endfor %}",
+	// keys that differ only in case or in surrounding blanks, read with a spelling that is none of them
+	"{{ cm.name }}|{{ cm.NAME }}|{{ cm['name'] }}|{{ cm.Name }}|{{ cm.nAME }}",
+	"{{ cm.name|default('none') }}{% if cm.name is defined %}D{% endif %}{{ cm|keys|join(',') }}",
 	// from here on (vhC03Strict): maps handed to filters and functions as values and as arguments;
 	// a template may fail (unknown filter, unsupported argument) but then fails on every order
 	"{{ 'catalog category c'|replace({'cat': 'X', 'category': 'Y', 'c': 'Z'}) }}",
@@ -125,12 +128,16 @@ func vhC03Ctx(order int, a, b, c string) map[string]interface{} {
 	for _, k := range [][]string{{"7", "07", "+7"}, {"+7", "07", "7"}, {"07", "7", "+7"}}[order%3] {
 		nm[k] = c
 	}
+	cm := map[string]interface{}{}
+	for _, k := range [][]string{{"Name", "NAME", "nAME"}, {"nAME", "NAME", "Name"}, {"NAME", "nAME", "Name"}}[order%3] {
+		cm[k] = a + k
+	}
 	if order%2 == 0 {
 		bm[true], bm[false] = "x", "y"
 	} else {
 		bm[false], bm[true] = "y", "x"
 	}
-	return map[string]interface{}{"nm": nm, "xm": xm, "ym": ym, "fm": fm, "am": am, "bm": bm, "sm": sm, "m": m, "tm": tm, "im": im, "m2": map[string]interface{}{"d": "4", "a": "0"}, "pm": vhC03Pm(order),
+	return map[string]interface{}{"cm": cm, "nm": nm, "xm": xm, "ym": ym, "fm": fm, "am": am, "bm": bm, "sm": sm, "m": m, "tm": tm, "im": im, "m2": map[string]interface{}{"d": "4", "a": "0"}, "pm": vhC03Pm(order),
 		"nested": map[string]interface{}{"n2": map[string]interface{}{"y": 1, "x": 2}, "n1": map[string]interface{}{"q": 3, "p": 4}}}
 }
 
@@ -146,7 +153,7 @@ func vhC03Pm(order int) map[string]interface{} {
 // vhC03Only keeps the context entries whose name occurs in the template source.
 func vhC03Only(ctx map[string]interface{}, src string) map[string]interface{} {
 	out := map[string]interface{}{}
-	for _, name := range []string{"nm", "xm", "ym", "fm", "am", "bm", "sm", "tm", "im", "m2", "nested", "pm", "m"} {
+	for _, name := range []string{"cm", "nm", "xm", "ym", "fm", "am", "bm", "sm", "tm", "im", "m2", "nested", "pm", "m"} {
 		found := false
 		for i := 0; i+len(name) <= len(src); i++ {
 			if src[i:i+len(name)] == name && (i+len(name) == len(src) || !(src[i+len(name)] >= 'a' && src[i+len(name)] <= 'z') && !(src[i+len(name)] >= '0' && src[i+len(name)] <= '9')) && (i == 0 || !(src[i-1] >= 'a' && src[i-1] <= 'z')) {
